@@ -181,7 +181,7 @@ pub fn run(tier: Tier, seed: u64) -> i32 {
         for &p in &pools {
             let pool = rayon::ThreadPoolBuilder::new().num_threads(p).build().unwrap();
             for delay in [false, true] {
-                if delay && rows > 2500 && tier == Tier::Quick {
+                if delay && tier == Tier::Quick && (rows > 2500 || ![2usize, 3, 5, 7, 12, 17].contains(&p)) {
                     continue;
                 }
                 let observe = rows <= 2500;
@@ -352,13 +352,13 @@ pub fn run(tier: Tier, seed: u64) -> i32 {
             }
         };
         run_order("fresh-os-thread", &|body| std::thread::scope(|s| s.spawn(|| body()).join().unwrap()));
-        for p in [1usize, 2] {
+        for p in tier.pick(vec![2usize], vec![1usize, 2, 5]) {
             let pool = rayon::ThreadPoolBuilder::new().num_threads(p).build().unwrap();
             run_order(&format!("rayon-pool-of-{p}"), &|body| pool.install(|| body()));
         }
     }
     sanitizer_summary(&ev, "C18");
-    ev.floor("thread-history jobs", ev.bucket_get("scenario.D6-thread-history"), 24);
+    ev.floor("thread-history jobs", ev.bucket_get("scenario.D6-thread-history"), 20);
     ev.floor("pool sizes", ev.set_len("pools") as u64, pools.len() as u64);
     ev.floor("fresh processes", ev.bucket_get("scenario.D2-fresh-process"), (n_children * sizes.len()) as u64);
     ev.floor("shared-key jobs", ev.bucket_get("scenario.D4-shared-keys"), 32);
